@@ -2352,7 +2352,7 @@ func (n Nexthop) encode(version uint8, software Software, processFlag nexthopPro
 		buf = append(buf, n.rmac[:]...)
 	}
 	// added in frr7.5 (Color for Segment Routing TE.)
-	if message&messageSRTE > 0 && (version == 6 && software.name == "frr" && software.version >= 7.5) {
+	if message&messageSRTE.ToEach(version, software) > 0 && (version == 6 && software.name == "frr" && software.version >= 7.5) {
 		tmpbuf := make([]byte, 4)
 		binary.BigEndian.PutUint32(tmpbuf, n.srteColor)
 		buf = append(buf, tmpbuf...) // frr: stream_putl(s, api_nh->srte_color);
@@ -2501,7 +2501,7 @@ func (n *Nexthop) decode(data []byte, version uint8, software Software, family u
 		offset += 6
 	}
 	// added in frr7.5 (Color for Segment Routing TE.)
-	if message&messageSRTE > 0 &&
+	if message&messageSRTE.ToEach(version, software) > 0 &&
 		(version == 6 && software.name == "frr" && software.version >= 7.5) {
 		if len(data) < offset+4 {
 			return 0, fmt.Errorf("lack of bytes for srte_color. need 4 but %d", len(data)-offset)
@@ -2815,7 +2815,9 @@ func (b *IPRouteBody) serialize(version uint8, software Software) ([]byte, error
 		binary.BigEndian.PutUint32(tmpbuf, b.tableID)
 		buf = append(buf, tmpbuf...)
 	}
-	if b.Message&messageOpaque.ToEach(version, software) > 0 {
+	// MESSAGE_OPAQUE is added in frr8
+	if version == 6 && software.name == "frr" && software.version >= 8 &&
+		b.Message&messageOpaque.ToEach(version, software) > 0 {
 		if int(b.opaque.length) > len(b.opaque.data) {
 			return nil, fmt.Errorf("opaque data length %d is greater than %d", b.opaque.length, len(b.opaque.data))
 		}
@@ -3402,7 +3404,8 @@ func (b *NexthopUpdateBody) serialize(version uint8, software Software) ([]byte,
 		return nil, fmt.Errorf("invalid address family: %d", b.Prefix.Family)
 	}
 	// SRTE color // if (srte_color) stream_putl(s, srte_color);
-	if b.Message&messageSRTE > 0 { // since frr 7.5
+	if version == 6 && software.name == "frr" && software.version >= 7.5 &&
+		b.Message&messageSRTE.ToEach(version, software) > 0 { // since frr 7.5
 		tmpbuf := make([]byte, 4)
 		binary.BigEndian.PutUint32(tmpbuf, b.srteColor)
 		buf = append(buf, tmpbuf...)
@@ -3478,7 +3481,7 @@ func (b *NexthopUpdateBody) decodeFromBytes(data []byte, version uint8, software
 	b.Prefix.Prefix = ipFromFamily(b.Prefix.Family, data[offset:offset+addrByteLen])
 	offset += addrByteLen
 
-	if b.Message&messageSRTE > 0 { // since frr 7.5
+	if b.Message&messageSRTE.ToEach(version, software) > 0 { // since frr 7.5
 		if len(data) < offset+4 {
 			return errors.New("invalid message length: missing srteColor(4 bytes)")
 		}
